@@ -51,7 +51,20 @@ def closed_iter_parts_flattening():
     g_inner.children = [P[1], P[2]]
     g_outer = sc.PartGroup(group_name="outer")
     g_outer.children = [P[0], g_inner]
-    for arg, want in (([P[0], P[1]], [P[0], P[1]]), (g_inner, [P[1], P[2]]), (g_outer, [P[0], P[1], P[2]]), ([g_outer, P[3]], [P[0], P[1], P[2], P[3]]), (P[3], [P[3]])):
+    # document order is depth first: a nested group placed BEFORE a sibling part, in the middle, two levels deep
+    Q = [sc.Part("Q%d" % i) for i in range(6)]
+    h_in = sc.PartGroup(group_name="violins")
+    h_in.children = [Q[0], Q[1]]
+    h_out = sc.PartGroup(group_name="strings")
+    h_out.children = [h_in, Q[2]]
+    k_in2 = sc.PartGroup(group_name="deep")
+    k_in2.children = [Q[3]]
+    k_in = sc.PartGroup(group_name="mid")
+    k_in.children = [k_in2, Q[4]]
+    k_out = sc.PartGroup(group_name="top")
+    k_out.children = [Q[5], k_in, Q[2]]
+    for arg, want in (([P[0], P[1]], [P[0], P[1]]), (g_inner, [P[1], P[2]]), (g_outer, [P[0], P[1], P[2]]), ([g_outer, P[3]], [P[0], P[1], P[2], P[3]]), (P[3], [P[3]]),
+                      (h_out, [Q[0], Q[1], Q[2]]), ([h_out, Q[3]], [Q[0], Q[1], Q[2], Q[3]]), (k_out, [Q[5], Q[3], Q[4], Q[2]])):
         n += 1
         got = list(sc.iter_parts(arg))
         if [id(x) for x in got] != [id(x) for x in want]:
@@ -192,3 +205,21 @@ def bounded(b):
         ok, r = b.guard("merge/no_exception", {"single": wrap}, lambda: sc.merge_parts(arg))
         if ok:
             b.case("merge/single_part_returned_as_is", r is p, {"single": wrap}, "a different object was returned")
+    # the convenience loader returns one part holding every note of every part of the file
+    import os
+    import partitura as pt
+    base = os.path.join(os.path.dirname(pt.__file__), "..", "tests", "data")
+    for rel in ("mei/Bach_Prelude.mei", "musicxml/test_clefs_tss.xml", "musicxml/test_merge_voices1.xml", "musicxml/test_part_group.xml", "musicxml/test_multi_part.xml",
+                "musicxml/test_note_ties.xml"):
+        path = os.path.join(base, rel)
+        if not os.path.exists(path):
+            continue
+        case = {"file": rel}
+        ok, res = b.guard("loader/no_exception", case, lambda: (pt.load_score(path), pt.load_score_as_part(path)))
+        if not ok:
+            continue
+        score, part = res
+        want = sorted((round(float(r["onset_quarter"]), 4), round(float(r["duration_quarter"]), 4), int(r["pitch"])) for r in score.note_array())
+        got = sorted((round(float(r["onset_quarter"]), 4), round(float(r["duration_quarter"]), 4), int(r["pitch"])) for r in part.note_array())
+        b.case("loader/load_score_as_part_holds_every_note_of_every_part", isinstance(part, sc.Part) and got == want, case,
+               "%d notes in the returned part, %d in the score (parts: %r)" % (len(got), len(want), [len(p.notes_tied) for p in score.parts]), nontrivial=len(score.parts) > 1)
